@@ -1,9 +1,9 @@
 (* C03 — Leaving a scope restores the allocator exactly; earlier data survives.
-   PARTIAL: restoration of chunk, position and allocated count, "no release", and survival of
-   earlier data (via C01's invariant and C02's frame) are proved; `replay_needs_no_chunk` and
-   `reset_loop_converges` are not yet proved and rest on the correspondence check. *)
+   Restoration of chunk, position and allocated count, "no release", survival of earlier data
+   (via C01's invariant and C02's frame), `replay_needs_no_chunk` and the convergence of a reset()
+   loop (`reset_loop_converges`, `loop_quiet_forever`) are proved over the model. *)
 From Coq Require Import ZArith List.
-From BS Require Import Word BumpSpec ChunkSpec Arena ArenaInv ArenaStats ArenaMisc ArenaExt ArenaInv2 ArenaReplay.
+From BS Require Import Word BumpSpec ChunkSpec Arena ArenaInv ArenaStats ArenaMisc ArenaExt ArenaInv2 ArenaReplay ArenaSizes ArenaLoop.
 Import ListNotations.
 Open Scope Z_scope.
 
@@ -73,7 +73,51 @@ Theorem C03_replay_needs_no_chunk :
   exists Bfin, allocs c B w [] = (Bfin, outs) /\ ledger Bfin = ledger B.
 Proof. exact replay_needs_no_chunk. Qed.
 
+(* a fixed workload run in a `reset()` loop: however many rounds are run and whatever (legal) blocks
+   the base allocator hands out, the number of rounds in which the arena obtains a chunk is bounded
+   by a number that depends only on the workload and the chunk the loop started with *)
+Theorem C03_reset_loop_converges :
+  forall c w rss s ch,
+  cfg_ok c -> Forall (fun l => valid_layout (fst l) (snd l)) w -> loop_state c s ch ->
+  rounds_ok c w s rss ->
+  16 * Z.of_nat (snd (rounds c w s rss)) <= Z.max 0 (need w + hs c - csize ch + 15).
+Proof. exact reset_loop_converges. Qed.
+
+(* and once the surviving chunk has room for the workload, no round ever makes a request again: no
+   chunk is obtained, the ledger of base-allocator events stays as it is, and the arena is back in
+   the same loop state after every round — whatever the base allocator would have answered *)
+Theorem C03_loop_quiet_forever :
+  forall c w rss s ch,
+  cfg_ok c -> Forall (fun l => valid_layout (fst l) (snd l)) w -> loop_state c s ch ->
+  need w <= capacity c ch ->
+  let '(sf, n) := rounds c w s rss in
+  n = 0%nat /\ ledger sf = ledger s /\ loop_state c sf ch.
+Proof. exact loop_quiet_forever. Qed.
+
+(* one round: the arena is in a loop state again, the surviving chunk is never smaller, and at
+   least 16 bytes larger when the round obtained a chunk *)
+Theorem C03_round_progress :
+  forall c w rs s ch r,
+  cfg_ok c -> Forall (fun l => valid_layout (fst l) (snd l)) w -> loop_state c s ch -> allocs_ok c s w rs ->
+  let s1 := fst (allocs c s w rs) in
+  let s2 := fst (step c s1 OReset r) in
+  exists ch2, loop_state c s2 ch2 /\ aligns s2 = aligns s /\ csize ch <= csize ch2 /\
+    ((length (chunks s) < length (chunks s1))%nat -> csize ch + 16 <= csize ch2).
+Proof. exact round_progress. Qed.
+
+(* a loop that starts from any allocated arena is in a loop state after its first round *)
+Theorem C03_first_round_reaches_loop_state :
+  forall c w rs s j r,
+  cfg_ok c -> Forall (fun l => valid_layout (fst l) (snd l)) w -> allocs_ok c s w rs ->
+  ginv c s -> incr (sizes s) -> live s = [] -> cur s = Cur j ->
+  exists ch, loop_state c (fst (step c (fst (allocs c s w rs)) OReset r)) ch.
+Proof. exact first_round_reaches_loop_state. Qed.
+
 Print Assumptions C03_checkpoint_records_position.
+Print Assumptions C03_reset_loop_converges.
+Print Assumptions C03_loop_quiet_forever.
+Print Assumptions C03_round_progress.
+Print Assumptions C03_first_round_reaches_loop_state.
 Print Assumptions C03_replay_needs_no_chunk.
 Print Assumptions C03_try_with_err_keeps_invariant.
 Print Assumptions C03_scoped_aligned_exit_keeps_invariant.
